@@ -201,6 +201,12 @@ class C10(PropBase):
             if segs[i] in v.alias or not segs[i] or any(ch in e for ch in '*>,?'):
                 continue
             out.append(('literal', e, ['/'.join(segs[:i] + ['*'] + segs[i + 1:])], {'pos': i, 'val': segs[i]}))
+        # alias rule with the alias as the only search feature (every other value explicit)
+        withal = [e for e in L if e and e.split('/')[-1] in [m for ms in v.alias.values() for m in ms] and not any(ch in e for ch in '*>,?')]
+        for e in rng.sample(withal, min(2, len(withal))):
+            segs = e.split('/')
+            al = rng.choice(sorted(a for a, ms in v.alias.items() if segs[-1] in ms))
+            out.append(('alias', '/'.join(segs[:-1] + [al]), ['/'.join(segs[:-1] + [m]) for m in v.alias[al]], {}))
         bylen = {}
         for e in L:
             bylen.setdefault(len(e.split('/')), []).append(e)
@@ -329,6 +335,21 @@ class C10(PropBase):
                     cap = len([1 for t, _ in all_accepting(v, s_) if t in utypes])
                     if o_[1].count(s_) > max(cap, 1):
                         fails.append((c_, o_, '%s.find(%r) yields %r %d times (searched types accepting it: %d)' % (finder, c_.args[-1], s_, o_[1].count(s_), cap)))
+            # every result matches the search: same depth as, and segment-wise glob-matched by, one of the unfolded typed searches
+            import re as _re2
+            def seg_match(pat, val):
+                return _re2.fullmatch('.*'.join(_re2.escape(x) for x in pat.replace('>', '*').split('*')), val, _re2.S) is not None
+            for c_, o_ in lst:
+                u = unfolds.get(c_.args[-1])
+                if not u or u[0] != 'ok':
+                    continue
+                forms = [x[0].split('/') for x in u[1]]
+                for s_ in o_[1]:
+                    ss = s_.split('/')
+                    if not any(len(f) == len(ss) and all(seg_match(a, b) for a, b in zip(f, ss)) for f in forms):
+                        fails.append((c_, o_, '%s.find(%r) yields %r, which matches none of the typed searches it unfolds to %r' % (
+                            finder, c_.args[-1], s_, ['/'.join(f) for f in forms][:4])))
+                        break
             left = sorted(set(lo[1]))
             if rule in ('comma', 'alias'):
                 right = sorted(set(x for _, o in R for x in o[1]))
